@@ -594,6 +594,68 @@ func probeCancelInReplay(kind string) string {
 	return "served"
 }
 
+// probeWriteDuringReplay: the listener must be in place BEFORE the replay snapshot is taken.  Forced schedule,
+// consumer side only: the consumer of a replaying watch (unbuffered hand-over) does not read, so the replay is
+// parked on its first events; a record is updated meanwhile; then the consumer reads everything.  The update
+// falls after the snapshot, so it can only reach the consumer as a live event.  Also the no-replay variant:
+// an update issued right after Watch returned must be shown.
+func probeWriteDuringReplay(kind string) string {
+	a := open(kind, test.NewClient())
+	time.Sleep(100 * time.Millisecond)
+	var rs []*rec
+	for _, k := range []string{"k0", "k1", "k2"} {
+		r := &rec{key: k, idok: true, tgtok: true, txok: true, payload: 1}
+		must(a.create(r))
+		rs = append(rs, r)
+	}
+	time.Sleep(100 * time.Millisecond)
+	res := ""
+	for _, variant := range []struct {
+		replay bool
+		idkey  string
+	}{{true, ""}, {true, "k1"}, {false, ""}, {false, "k1"}} {
+		if variant.idkey != "" && !a.canIDWatch(variant.idkey) {
+			a.get(variant.idkey)
+		}
+		vic := make(chan event)
+		must(a.watch(context.Background(), variant.replay, variant.idkey, vic))
+		if variant.replay {
+			time.Sleep(60 * time.Millisecond) // snapshot taken, replay parked on the silent consumer
+		}
+		rs[1].payload++
+		must(a.update(rs[1]))
+		want := rs[1].version
+		got := false
+		deadline := time.After(2 * time.Second)
+	loop:
+		for {
+			select {
+			case e := <-vic:
+				if e.key == "k1" && e.version == want {
+					got = true
+					break loop
+				}
+			case <-deadline:
+				break loop
+			}
+		}
+		go func() {
+			for range vic {
+			}
+		}()
+		if !got {
+			res += fmt.Sprintf("missed(replay=%v,id=%s);", variant.replay, variant.idkey)
+		}
+		if kind == "prop2" {
+			time.Sleep(30 * time.Millisecond)
+		}
+	}
+	if res == "" {
+		return "served"
+	}
+	return res
+}
+
 func runProbeChild(name, kind string) {
 	res := "?"
 	switch name {
@@ -601,6 +663,8 @@ func runProbeChild(name, kind string) {
 		res = probeCancelIdle(kind)
 	case "cancel-in-replay":
 		res = probeCancelInReplay(kind)
+	case "write-during-replay":
+		res = probeWriteDuringReplay(kind)
 	}
 	fmt.Println("PROBE-RESULT " + res)
 	os.Exit(0)
@@ -769,6 +833,7 @@ func main() {
 		if k != "prop2" {
 			probe(fmt.Sprintf("%d:p-replay-%s", *seed, k), "cancel-in-replay", k)
 		}
+		probe(fmt.Sprintf("%d:p-order-%s", *seed, k), "write-during-replay", k)
 	}
 	if *corpus != "" {
 		if b, err := os.ReadFile(*corpus); err == nil {
